@@ -453,7 +453,8 @@ impl Run {
         }
         self.stats.sends += 1;
         // RFC 9001 4.9.1 / `ArcCC::on_pkt_sent`: a client drops Initial when it sends Handshake
-        if sp == 1 && !self.server {
+        // (once: the first Handshake packet; later Initial packets are tracked normally)
+        if sp == 1 && !self.server && !self.sp[0].discarded_once {
             self.model_discard(0, info);
         }
         // clause 6
@@ -590,7 +591,7 @@ impl Run {
                     // `space::handshake` dispatch
                     self.hs.received_handshake_ack();
                     self.hs_ack = true;
-                    if self.server {
+                    if self.server && !self.sp[0].discarded_once {
                         self.model_discard(0, &mut info);
                     }
                 }
